@@ -180,7 +180,7 @@ func runVp9History(flexible bool, init uint16, calls []Tok, frames []vp9Frame) O
 					continue
 				}
 				cat = append(cat, body...)
-				if d.B != (fi == 0) || d.E != (fi == len(frags)-1) || d.IsPartitionHead(f) != (fi == 0) {
+				if d.B != (fi == 0) || d.E != (fi == len(frags)-1) {
 					o.Fail = fmt.Sprintf("call %d: B/E wrong on fragment %d", ci, fi)
 				}
 				if !d.I || int(d.PictureID) != pid {
